@@ -32,6 +32,32 @@ static unsigned char probe[64];
 static FILE *out;
 static long nrec;
 
+/* ---- every block the library allocates (the vector's storage) gets trailing guard bytes ---- */
+void *__real_malloc(size_t); void *__real_realloc(void *, size_t); void __real_free(void *);
+#define HG 64
+static struct { unsigned char *p; size_t n; } hb[64]; static int nhb;
+static int in_lib;
+static void hb_add(unsigned char *p, size_t n) { if (nhb < 64) { hb[nhb].p = p; hb[nhb].n = n; nhb++; } memset(p + n, 0xC5, HG); }
+static int hb_find(void *p) { int i; for (i = 0; i < nhb; i++) if (hb[i].p == p) return i; return -1; }
+void *__wrap_malloc(size_t n) { unsigned char *p; if (!in_lib) return __real_malloc(n); p = __real_malloc(n + HG); if (p) hb_add(p, n); return p; }
+void *__wrap_realloc(void *q, size_t n)
+{
+    unsigned char *p; int i = q ? hb_find(q) : -1;
+    if (!in_lib && i < 0) return __real_realloc(q, n);
+    p = __real_realloc(q, n + HG);
+    if (p) { if (i >= 0) { hb[i] = hb[--nhb]; } hb_add(p, n); }
+    return p;
+}
+void __wrap_free(void *q) { int i = q ? hb_find(q) : -1; if (i >= 0) hb[i] = hb[--nhb]; __real_free(q); }
+static int vguard = 1;
+static int heap_guards_ok(void)
+{
+    if (!vguard) return 0;
+    int i; size_t j;
+    for (i = 0; i < nhb; i++) for (j = 0; j < HG; j++) if (hb[i].p[hb[i].n + j] != 0xC5) return 0;
+    return 1;
+}
+
 /* ---- event log ---- */
 static char *ev; static size_t evn, evcap; static long nev;
 static void ev_add(char k, long x, long y)
@@ -46,9 +72,10 @@ static long idx_of(const void *p)
     if (q >= arr && q < arr + N * ESZ && (size_t)(q - arr) % ESZ == 0) return (long)((size_t)(q - arr) / ESZ);
     return -99;
 }
+static int priv_token, priv_ok = 1;
 static int cmp(const void *a, const void *b, void *p)
 {
-    (void)p;
+    if (p != (void *)&priv_token) priv_ok = 0;
     ev_add('c', idx_of(a), idx_of(b));
     return (int)*(const unsigned char *)a - (int)*(const unsigned char *)b;
 }
@@ -118,11 +145,15 @@ static void put_ids(void)
     if (ESZ > 1) for (i = 0; i < N; i++) fprintf(out, "%s%ld", i ? "," : "", id_at(i));
     fputs("]", out);
 }
-static void begin_rec(const char *op) { fprintf(out, "{\"id\":%ld,\"op\":\"%s\",\"esz\":%zu,", ++nrec, op, ESZ); evn = 0; nev = 0; if (ev) ev[0] = 0; swap_scratch_ok = 1; }
+static void begin_rec(const char *op) { vguard = 1; fprintf(out, "{\"id\":%ld,\"op\":\"%s\",\"esz\":%zu,", ++nrec, op, ESZ); evn = 0; nev = 0; if (ev) ev[0] = 0; swap_scratch_ok = 1; priv_ok = 1; }
 static void end_rec(const char *outcome, int full_events)
 {
+    fprintf(out, ",\"out\":\"%s\",\"hguards\":%s,\"guards\":%s,", outcome, heap_guards_ok() ? "true" : "false",
+            guards_ok() ? "true" : "false");
+    fprintf(out, "\"scratch\":%s,\"nev\":%ld,\"ev\":[%s]}\n", swap_scratch_ok && priv_ok ? "true" : "false", nev, full_events && ev ? ev : "");
+    return;
     fprintf(out, ",\"out\":\"%s\",\"guards\":%s,\"scratch\":%s,\"nev\":%ld,\"ev\":[%s]}\n", outcome, guards_ok() ? "true" : "false",
-            swap_scratch_ok ? "true" : "false", nev, full_events && ev ? ev : "");
+            swap_scratch_ok && priv_ok ? "true" : "false", nev, full_events && ev ? ev : "");
 }
 static const char *protect_begin(void)
 {
@@ -141,20 +172,24 @@ static void run_sort(const int *vals, size_t n, size_t esz, int algo, int via, i
     sig = sigsetjmp(jb, 1);
     if (sig == 0) {
         alarm(20);
-        if (via == 0) cstl_raw_array_sort(arr, n, esz, cmp, NULL, swp, scratch, (cstl_sort_algorithm_t)algo);
+        if (via == 0) cstl_raw_array_sort(arr, n, esz, cmp, &priv_token, swp, scratch, (cstl_sort_algorithm_t)algo);
         else {
             /* a vector whose storage is our buffer: cap = n puts its scratch slot where ours is only if
              * contiguous, so lay the vector out itself: base = arr, count = n, cap = n + GUARD/esz is wrong;
              * instead use a genuine vector and copy in and out */
             struct cstl_vector v; unsigned char *keep_arr = arr, *keep_scr = scratch;
+            in_lib = 1;
             cstl_vector_init(&v, esz);
-            cstl_vector_resize(&v, n);
+            if (via == 2) { cstl_vector_resize(&v, n + 5); cstl_vector_resize(&v, n); cstl_vector_shrink_to_fit(&v); }
+            else cstl_vector_resize(&v, n);
             if (n) memcpy(cstl_vector_data(&v), keep_arr, n * esz);
             arr = cstl_vector_data(&v); scratch = arr ? arr + cstl_vector_capacity(&v) * esz : NULL;
-            __cstl_vector_sort(&v, cmp, NULL, swp, (cstl_sort_algorithm_t)algo);
+            __cstl_vector_sort(&v, cmp, &priv_token, swp, (cstl_sort_algorithm_t)algo);
             if (n) memcpy(keep_arr, arr, n * esz);
             arr = keep_arr; scratch = keep_scr;
+            vguard = heap_guards_ok();
             cstl_vector_clear(&v);
+            in_lib = 0;
         }
         alarm(0);
         fputs("\"dr\":[", out);
@@ -179,16 +214,16 @@ static void run_probe(const char *op, const int *vals, size_t n, size_t esz, int
     if (sig == 0) {
         alarm(20);
         if (via == 0) {
-            if (!strcmp(op, "search")) r = (long)cstl_raw_array_search(arr, n, esz, probe, cmp, NULL);
-            else if (!strcmp(op, "find")) r = (long)cstl_raw_array_find(arr, n, esz, probe, cmp, NULL);
+            if (!strcmp(op, "search")) r = (long)cstl_raw_array_search(arr, n, esz, probe, cmp, &priv_token);
+            else if (!strcmp(op, "find")) r = (long)cstl_raw_array_find(arr, n, esz, probe, cmp, &priv_token);
             else cstl_raw_array_reverse(arr, n, esz, swp, scratch);
         } else {
             struct cstl_vector v; unsigned char *keep_arr = arr, *keep_scr = scratch;
             cstl_vector_init(&v, esz); cstl_vector_resize(&v, n);
             if (n) memcpy(cstl_vector_data(&v), keep_arr, n * esz);
             arr = cstl_vector_data(&v); scratch = arr ? arr + cstl_vector_capacity(&v) * esz : NULL;
-            if (!strcmp(op, "search")) r = (long)cstl_vector_search(&v, probe, cmp, NULL);
-            else if (!strcmp(op, "find")) r = (long)cstl_vector_find(&v, probe, cmp, NULL);
+            if (!strcmp(op, "search")) r = (long)cstl_vector_search(&v, probe, cmp, &priv_token);
+            else if (!strcmp(op, "find")) r = (long)cstl_vector_find(&v, probe, cmp, &priv_token);
             else __cstl_vector_reverse(&v, swp);
             if (n) memcpy(keep_arr, arr, n * esz);
             arr = keep_arr; scratch = keep_scr;
@@ -222,7 +257,7 @@ int main(int argc, char **argv)
                 for (si = 0; si < sizeof sizes / sizeof sizes[0]; si++) {
                     size_t esz = sizes[si]; int ai;
                     for (ai = 0; ai < 5; ai++) {
-                        int algo = algos[ai], via = (int)((code + ai + si) & 1);
+                        int algo = algos[ai], via = (int)((code + ai + si) % 3);
                         if (algo != 1) { run_sort(vals, (size_t)len, esz, algo, via, 1); continue; }
                         if (si > 1) continue;                 /* every draw sequence: element sizes 1 and 2 */
                         /* enumerate every sequence of draws rand() can produce (values 0..len-1) */
